@@ -5,7 +5,9 @@ pub mod c02;
 pub mod c04;
 pub mod c07;
 pub mod c08;
+pub mod c09;
 pub mod c13;
+pub mod c14;
 pub mod c16;
 pub mod c17;
 pub mod c19;
@@ -17,7 +19,9 @@ pub fn get(id: &str) -> Option<Box<dyn Monitor>> {
         "C04" => Some(Box::new(c04::C04)),
         "C07" => Some(Box::new(c07::C07)),
         "C08" => Some(Box::new(c08::C08)),
+        "C09" => Some(Box::new(c09::C09)),
         "C13" => Some(Box::new(c13::C13)),
+        "C14" => Some(Box::new(c14::C14)),
         "C16" => Some(Box::new(c16::C16)),
         "C17" => Some(Box::new(c17::C17)),
         "C19" => Some(Box::new(c19::C19)),
